@@ -636,6 +636,43 @@ protected:
     }
 
     /**
+     * Check that the UTF-16 code unit at a position is either a
+     * character on its own, or one half of a well-formed surrogate
+     * pair.  An unpaired surrogate cannot be written in any encoding.
+     *
+     * @param chars the string.
+     * @param i the position of the code unit.
+     * @param length the length of the string.
+     */
+    void
+    checkCodeUnit(
+            const XalanDOMChar  chars[],
+            size_type           i,
+            size_type           length)
+    {
+        const XalanDOMChar  ch = chars[i];
+
+        if (isUTF16HighSurrogate(ch) == true)
+        {
+            if (i + 1 >= length)
+            {
+                throwInvalidUTF16SurrogateException(ch, getMemoryManager());
+            }
+            else if (isUTF16LowSurrogate(chars[i + 1]) == false)
+            {
+                throwInvalidUTF16SurrogateException(ch, chars[i + 1], getMemoryManager());
+            }
+        }
+        else if (isUTF16LowSurrogate(ch) == true)
+        {
+            if (i == 0 || isUTF16HighSurrogate(chars[i - 1]) == false)
+            {
+                throwInvalidUTF16SurrogateException(i == 0 ? XalanDOMChar(0) : chars[i - 1], ch, getMemoryManager());
+            }
+        }
+    }
+
+    /**
     * Write a normalized character to the stream.
     * @param ch the string to write.
     * @param start the start offset into the string.
@@ -666,8 +703,10 @@ protected:
                 // Comments and processing instructions cannot contain
                 // character references, so a character that cannot be
                 // represented in the output encoding is an error here.
+                checkCodeUnit(chars, start, length);
+
                 const size_type     theCount =
-                    isUTF16HighSurrogate(ch) == true && start + 1 < length ? 2 : 1;
+                    isUTF16HighSurrogate(ch) == true ? 2 : 1;
 
                 m_writer.writeCommentChars(chars + start, theCount);
 
@@ -701,6 +740,8 @@ protected:
         const XalanDOMChar  ch = chars[start];
 
         assert(m_charPredicate.range(ch) == true);
+
+        checkCodeUnit(chars, start, length);
 
         if (XMLVersion == XML_VERSION_1_1 &&
             XalanUnicode::charLSEP == ch)
@@ -809,6 +850,8 @@ protected:
                 }
                 else
                 {
+                    checkCodeUnit(chars, i, length);
+
                     i = m_writer.writeCDATAChar(chars, i, length, outsideCDATA);
                 }
             }
